@@ -5,3 +5,4 @@
 import RosuModel.Props.C01
 import RosuModel.Props.C01Ieee
 import RosuModel.Props.C01IeeeWitness
+import RosuModel.Props.C01IeeeFuel
